@@ -64,3 +64,89 @@ Theorem printed_bytes : forall dated (f : file),
   printed dated f = match s with [] => [] | _ => if ends_with_nl s then s else s ++ [NL] end.
 Proof. exact SyslinesProofs.printed_bytes. Qed.
 Print Assumptions printed_bytes.
+
+(* ---------------------------------------------------------------------------------------------
+   The reader CACHES (Model/Caches.v: LineReader.lines, foend_to_fobeg, find_line LRU cache;
+   SyslineReader.syslines, syslines_by_range, find_sysline LRU cache, parse_datetime LRU cache;
+   drop_data / drop_sysline / drop_line; LRU caches on or off) are a refinement of the pure
+   block-wise searches above, for every operation sequence, file, block size > 0 and oracle. *)
+From S4.Model Require Import Caches.
+From S4.Proofs Require Import CachesProofs CachesSysProofs CachesRunProofs CachesExamples.
+
+(* without drops: the cached machine answers every operation (no Panic, same number of answers)
+   and what the caller observes of each answer is what the PURE function gives for that
+   operation (find_line_m / find_sysline_m / stream_m): find_line, find_sysline at arbitrary
+   offsets in any order, repeated, backward; LRU caches switched off and on; find_line_in_block
+   interleaved anywhere; the driver *)
+Theorem cached_refines_pure : forall dated bs (f : file) ops, 0 < bs -> Forall op_nodrop ops ->
+  map (obs_cres bs f) (snd (c_run dated bs f cinit ops)) = map (pure_cobs dated bs f) ops /\
+  length (snd (c_run dated bs f cinit ops)) = length ops.
+Proof. exact CachesRunProofs.cached_refines_pure. Qed.
+Print Assumptions cached_refines_pure.
+
+Theorem cached_nodrop_no_panic : forall dated bs (f : file) ops, 0 < bs -> Forall op_nodrop ops ->
+  forallb (fun x => negb (cres_panicked x)) (snd (c_run dated bs f cinit ops)) = true.
+Proof. exact CachesRunProofs.cached_nodrop_no_panic. Qed.
+Print Assumptions cached_nodrop_no_panic.
+
+(* with drops interleaved anywhere (drop_data at any block, drop_sysline at any offset, the driver
+   with any drop plan): every answer is still the spec answer (results_ok / cres_spec); find_line
+   always answers (a dropped line is searched again); the ONLY other outcome is find_sysline's
+   Panic inside the range of a dropped sysline, which ends the run.  find_line_in_block may also
+   answer Done ("not inside this block"), never a wrong line. *)
+Theorem cached_run_sound : forall dated bs (f : file) ops, 0 < bs -> Forall op_safe ops ->
+  results_ok dated bs f ops (snd (c_run dated bs f cinit ops)).
+Proof. exact CachesRunProofs.cached_run_sound. Qed.
+Print Assumptions cached_run_sound.
+
+(* the call pattern of the stage driver is inside the safe region: over the CACHED reader, after
+   any history of reads, for EVERY drop plan (SyslogProcessor::drop_data skips some calls), it
+   emits exactly the spec groups: none dropped, repeated, truncated; no Panic; fuel suffices *)
+Theorem cached_driver_complete : forall dated bs (f : file) ops plan, 0 < bs -> Forall op_nodrop ops ->
+  obs_stream bs f (rmap (snd (c_stream dated bs f plan (snd (fst (c_run dated bs f cinit ops)))))) =
+  Some (syslines dated f).
+Proof. exact CachesRunProofs.cached_driver_complete. Qed.
+Print Assumptions cached_driver_complete.
+
+(* what the CURRENT code does NOT guarantee (each with a witness, reproduced in-process) *)
+Theorem find_sysline_after_drop_refuted :
+  exists (dated : list N -> option Z) (bs : N) (f : file) (ops : list cop),
+    0 < bs /\ Forall op_safe ops /\
+    exists st p, c_run dated bs f cinit ops = (st, [RS (Found (3, (0, 7%Z, [(0, [(0, 0, 2); (1, 0, 1)])]))) QSearch;
+                                                    RU; RS Panic p]).
+Proof. exact CachesExamples.find_sysline_after_drop_refuted. Qed.
+Print Assumptions find_sysline_after_drop_refuted.
+
+Theorem sysline_in_block_poisons_lru_refuted :
+  exists (dated : list N -> option Z) (bs : N) (f : file) (fo : N),
+    0 < bs /\
+    nth 1 (map (obs_cres bs f) (snd (c_run dated bs f cinit [OSB fo; OS fo]))) CU <>
+    CS (spec_find_sysline dated f fo).
+Proof. exact CachesExamples.sysline_in_block_poisons_lru_refuted. Qed.
+Print Assumptions sysline_in_block_poisons_lru_refuted.
+
+Theorem sysline_in_block_truncates_refuted :
+  exists (dated : list N -> option Z) (bs : N) (f : file) (fo : N),
+    0 < bs /\
+    nth 1 (map (obs_cres bs f) (snd (c_run dated bs f cinit [OSB fo; OS fo]))) CU <>
+    CS (spec_find_sysline dated f fo).
+Proof. exact CachesExamples.sysline_in_block_truncates_refuted. Qed.
+Print Assumptions sysline_in_block_truncates_refuted.
+
+(* block-zero analysis (SyslogProcessor stage 1) calls find_line_in_block and find_sysline_in_block from
+   offset 0 and then at each returned offset on the reader that stages 2 and 3 use.  In THAT pattern
+   find_sysline_in_block is safe: after it (any number of calls), every operation sequence without
+   drops is answered as the spec says and the stage driver emits exactly the spec groups for every drop
+   plan.  Oracle hypothesis: the first byte of a line never dates differently from the line (the partial
+   line find_line_in_block hands to the parser is that byte, finding F3a). *)
+From S4.Proofs Require Import CachesGateProofs.
+Theorem gate_then_refines : forall dated bs (f : file) k1 k2 ops plan, 0 < bs ->
+  (forall b z, b < lenN f -> line_beg f b = b ->
+     dated (slice f b (b + 1)) = Some z -> dated (slice f b (line_end f b + 1)) = Some z) ->
+  Forall op_nodrop ops ->
+  let st0 := (lr_init, c_gate dated k1 k2 bs f sr_init) in
+  map (obs_cres bs f) (snd (c_run dated bs f st0 ops)) = map (spec_cobs dated f) ops /\
+  obs_stream bs f (rmap (snd (c_stream dated bs f plan (snd (fst (c_run dated bs f st0 ops)))))) =
+  Some (syslines dated f).
+Proof. exact CachesGateProofs.gate_then_refines. Qed.
+Print Assumptions gate_then_refines.
